@@ -91,7 +91,7 @@ fn run_step<const K: usize>(kind: u8, canary: bool) {
     assert!(io.should_quit() == quit);
     if !quit { assert!(got == val); }
     assert!(side == any_act);
-    if kind != 2 { kani::cover!(n < K && !quit); }
+    kani::cover!(kind == 2 || (n < K && !quit));
     kani::cover!(quit && n < K);
     kani::cover!(n == K && got);
     std::mem::forget(entry);
@@ -235,3 +235,108 @@ fn c01_and_builder_canary() {
     assert!(m.matches(&entry, &mut io) == (r[0] || r[1])); // must FAIL
     std::mem::forget(m); std::mem::forget(entry);
 }
+
+// ---------------------------------------------------------------------------------------------
+// C01/C11: the precedence encoding of the Or/List builders and their "operator with nothing before it" checks
+// ---------------------------------------------------------------------------------------------
+/// Apply a fixed prefix of builder operations (shape), then one symbolic operation; compare with the grouping the grammar prescribes.
+/// Shapes (P = a primary): 0 "", 1 "P", 2 "P -o", 3 "P -o P", 4 "P ,", 5 "P , P", 6 "P P -o P , P"
+fn run_builder_shape<const SHAPE: usize>(canary: bool) {
+    let mut b = ListMatcherBuilder::new();
+    // expected grouping: list of or-groups of and-groups, as counts
+    let (mut li, mut oi) = (0usize, 0usize);
+    let mut counts = [[0usize; 3]; 3];
+    macro_rules! push { () => { b.new_and_condition(TrueMatcher); counts[li][oi] += 1; } }
+    macro_rules! or_ { () => { let r = b.new_or_condition("-o"); assert!(r.is_ok()); std::mem::forget(r); oi += 1; } }
+    macro_rules! list_ { () => { let r = b.new_list_condition(); assert!(r.is_ok()); std::mem::forget(r); li += 1; oi = 0; } }
+    if SHAPE >= 1 { push!(); }
+    if SHAPE == 2 || SHAPE == 3 { or_!(); }
+    if SHAPE == 3 { push!(); }
+    if SHAPE == 4 || SHAPE == 5 { list_!(); }
+    if SHAPE == 5 { push!(); }
+    if SHAPE == 6 { push!(); or_!(); push!(); list_!(); push!(); }
+    let group_empty = counts[li][oi] == 0;
+    // one symbolic operation: 0 = explicit -a, 1 = -o, 2 = ','
+    let op: u8 = kani::any();
+    kani::assume(op < 3);
+    let r = match op { 0 => b.check_new_and_condition(), 1 => b.new_or_condition("-o"), _ => b.new_list_condition() };
+    if canary { assert!(r.is_ok()); std::mem::forget(r); std::mem::forget(b); return; } // must FAIL for shapes ending in an operator
+    assert!(r.is_err() == group_empty, "a binary operator is rejected iff nothing precedes it in its group");
+    if r.is_ok() { if op == 1 { oi += 1; } else if op == 2 { li += 1; oi = 0; } }
+    std::mem::forget(r);
+    // the nested structure is the grouping: ',' opens a new or-group list entry, -o a new and-group inside the current one
+    assert!(b.submatchers.len() == li + 1);
+    let mut l = 0;
+    while l < 3 {
+        if l <= li {
+            let ob = &b.submatchers[l];
+            let mut o = 0;
+            while o < 3 {
+                if o < ob.submatchers.len() { assert!(ob.submatchers[o].submatchers.len() == counts[l][o]); }
+                else { assert!(counts[l][o] == 0); }
+                o += 1;
+            }
+            assert!(ob.submatchers.len() >= 1 && ob.submatchers.len() <= 3);
+        }
+        l += 1;
+    }
+    kani::cover!(op == 0);
+    kani::cover!(op == 2);
+    std::mem::forget(b);
+}
+macro_rules! builder_shape {
+    ($name:ident, $canary:ident, $shape:expr, $unwind:expr) => {
+        #[kani::proof]
+        #[kani::unwind($unwind)]
+        #[kani::stub(alloc::fmt::format, fmt_stub)]
+        #[kani::stub(alloc::raw_vec::handle_error, he_stub)]
+        #[kani::stub(std::alloc::handle_alloc_error, hae_stub)]
+        fn $name() { run_builder_shape::<$shape>(false); }
+        #[kani::proof]
+        #[kani::unwind($unwind)]
+        #[kani::stub(alloc::fmt::format, fmt_stub)]
+        #[kani::stub(alloc::raw_vec::handle_error, he_stub)]
+        #[kani::stub(std::alloc::handle_alloc_error, hae_stub)]
+        fn $canary() { run_builder_shape::<$shape>(true); }
+    };
+}
+macro_rules! builder_shape_nc {
+    ($name:ident, $shape:expr, $unwind:expr) => {
+        #[kani::proof]
+        #[kani::unwind($unwind)]
+        #[kani::stub(alloc::fmt::format, fmt_stub)]
+        #[kani::stub(alloc::raw_vec::handle_error, he_stub)]
+        #[kani::stub(std::alloc::handle_alloc_error, hae_stub)]
+        fn $name() { run_builder_shape::<$shape>(false); }
+    };
+}
+// @harness props=C01,C11 tier=quick cost=15 flags=nomem
+// @exec ListMatcherBuilder::{new,new_and_condition,new_or_condition,new_list_condition,check_new_and_condition}, OrMatcherBuilder::*, AndMatcherBuilder::new_and_condition
+// @sym the next operator (-a, -o, ',') after the fixed prefix ""
+// @bounds fixed prefix shape; one symbolic operation
+builder_shape!(c11_builder_shape0, c11_builder_shape0_canary, 0, 5);
+// @harness props=C01,C11 tier=quick cost=15 flags=nomem
+// @exec as c11_builder_shape0
+// @sym the next operator after the prefix "P"
+// @bounds fixed prefix shape
+builder_shape_nc!(c11_builder_shape1, 1, 5);
+// @harness props=C01,C11 tier=quick cost=15 flags=nomem
+// @exec as c11_builder_shape0
+// @sym the next operator after the prefix "P -o"
+// @bounds fixed prefix shape
+builder_shape!(c11_builder_shape2, c11_builder_shape2_canary, 2, 5);
+// @harness props=C01,C11 tier=thorough cost=300 flags=nomem
+// @exec as c11_builder_shape0
+// @sym the next operator after the prefix "P -o P"
+// @bounds fixed prefix shape
+builder_shape_nc!(c11_builder_shape3, 3, 5);
+// @harness props=C01,C11 tier=quick cost=15 flags=nomem
+// @exec as c11_builder_shape0
+// @sym the next operator after the prefix "P ,"
+// @bounds fixed prefix shape
+builder_shape!(c11_builder_shape4, c11_builder_shape4_canary, 4, 5);
+// @harness props=C01,C11 tier=quick cost=15 flags=nomem
+// @exec as c11_builder_shape0
+// @sym the next operator after the prefix "P , P"
+// @bounds fixed prefix shape
+builder_shape_nc!(c11_builder_shape5, 5, 5);
